@@ -74,10 +74,10 @@ Proof. exact uidvalidity_bumped_effect. Qed.
 Print Assumptions C06_uidvalidity_bump_touches_only_uidvalidity.
 
 (* ---- a valid update is applied successfully and produces exactly the change it describes ---- *)
-Theorem C06_mailbox_created_effect : forall s e rid name v vs,
+Theorem C06_mailbox_created_effect : forall s e rid name fl pf att v vs,
   rid <> cu_recovery_rid -> cu_find_mb_rid s rid = None -> cu_find_mb_name s (cu_canon_name name) = None -> e_uidv e = v :: vs ->
-  cu_apply s e (UMailboxCreated rid name) =
-    (mkSt (st_mb s ++ [mkMb (st_nextmb s) rid (cu_canon_name name) v true]) (st_ms s) (st_me s) (st_seq s) (st_nextmb s + 1) (st_dsub s), AOk, []).
+  cu_apply s e (UMailboxCreated rid name fl pf att) =
+    (mkSt (st_mb s ++ [mkMb (st_nextmb s) rid (cu_canon_name name) v true fl pf att]) (st_ms s) (st_me s) (st_seq s) (st_nextmb s + 1) (st_dsub s), AOk, []).
 Proof. exact mailbox_created_effect. Qed.
 Print Assumptions C06_mailbox_created_effect.
 
@@ -153,7 +153,7 @@ Print Assumptions C06_message_id_changed_effect.
 (* ---- non-vacuity ---- *)
 (* INBOX (remote id 1), a mailbox "3" (remote id 5), the recovery mailbox; message 1 in both, message 2 in one *)
 Definition ex_state : cu_state :=
-  mkSt [mkMb 1 0 9 100 true; mkMb 2 1 0 101 true; mkMb 3 5 3 102 true]
+  mkSt [mkMb 1 0 9 100 true [] [] []; mkMb 2 1 0 101 true [1] [1] []; mkMb 3 5 3 102 true [1; 2] [1] [3]]
        [mkMs 1 (Some 7) 1 [1] false; mkMs 2 (Some 8) 2 [] false]
        [mkMe 2 1 1 7; mkMe 3 1 1 7; mkMe 3 2 2 8] [(2, 1); (3, 2)] 4 [].
 
